@@ -50,6 +50,11 @@ func main() {
 		fmt.Printf("\t%q: {%s},\n", n, `"`+strings.Join(ps, `", "`)+`"`)
 	}
 	fmt.Println("}")
+	fmt.Println("\n// pinnedSigs: signature (types only) of every function of the reviewed tree; a missing\n// function whose receiver and signature match exactly one function that is not in the\n// reviewed tree is taken to be that function renamed.\nvar pinnedSigs = map[string]string{")
+	for _, n := range names {
+		fmt.Printf("\t%q: %q,\n", n, core.SigStr(p, p.Funcs[n].Obj))
+	}
+	fmt.Println("}")
 	// locals in declaration order: (type, name)
 	fmt.Println("\n// pinnedLocals: for every function of the reviewed tree, its local variables (including\n// those of function literals) in declaration order, as type and name. When a function's\n// locals still have exactly this sequence of types, each is spelled as it was on the\n// reviewed tree (a pure rename changes nothing a rule sees); otherwise the current\n// spelling is used.\nvar pinnedLocals = map[string][][2]string{")
 	for _, n := range names {
